@@ -28,6 +28,9 @@ def evaluate(mdir, args):
     mdir = os.path.abspath(mdir)
     name = os.path.basename(mdir.rstrip("/"))
     prop = name.split("-")[0]
+    if args.renumber:
+        # a later round: continue the numbering of the changes already kept for this property
+        name = prop + "-" + str(int(name.split("-")[1]) + RENUM.get(prop, 0))
     res = {"id": name, "property": prop}
     patch = os.path.join(mdir, "patch.diff")
     demos = sorted(glob.glob(os.path.join(mdir, "zz_demo*_test.go")) + glob.glob(os.path.join(mdir, "*_test.go")))
@@ -79,16 +82,22 @@ def evaluate(mdir, args):
         shutil.copy(os.path.join(ROOT, "known_findings.json"), vroot)
         env = dict(ENV, VERIF_REPO=repo)
         detected, undecided, details = [], [], {}
-        for pid in CHECKS:
-            c = subprocess.run([os.path.join(ROOT, "bin/utlsverify"), "-prop", pid, "-tier", "quick", "-root", vroot], env=env, capture_output=True, text=True)
-            hard = [l for l in c.stdout.splitlines() if l.startswith("VIOLATION") and "kind=undecided" not in l]
-            if c.returncode != 0 and hard:
-                detected.append(pid)
-                details[pid] = [l.strip()[:260] for l in c.stdout.splitlines() if l.strip().startswith("violation")][:3]
-            elif c.returncode != 0:
-                # fails closed: the check exits 1 with a VIOLATION line of kind=undecided
-                undecided.append(pid)
-                details[pid] = [l.strip()[:260] for l in c.stdout.splitlines() if "UNDECIDED" in l][:3]
+        c = subprocess.run([os.path.join(ROOT, "bin/utlsverify"), "-prop", "all", "-tier", "quick", "-root", vroot], env=env, capture_output=True, text=True)
+        cur = []
+        for l in c.stdout.splitlines():
+            if l.startswith("RESULT "):
+                _, pid, rc = l.split()
+                if rc != "0":
+                    hard = [x for x in cur if x.startswith("VIOLATION") and "kind=undecided" not in x]
+                    if hard:
+                        detected.append(pid)
+                        details[pid] = [x.strip()[:260] for x in cur if x.strip().startswith("violation")][:3]
+                    else:
+                        undecided.append(pid)
+                        details[pid] = [x.strip()[:260] for x in cur if "UNDECIDED" in x][:3]
+                cur = []
+            else:
+                cur.append(l)
         res["detected_by"] = detected
         res["undecided"] = undecided
         res["details"] = details
@@ -121,12 +130,21 @@ def evaluate(mdir, args):
     finally:
         shutil.rmtree(d, ignore_errors=True)
 
+RENUM = {}
+for _d in glob.glob(os.path.join(ROOT, "seeded", "C*-*")):
+    _p, _n = os.path.basename(_d).split("-")[:2]
+    try:
+        RENUM[_p] = max(RENUM.get(_p, 0), int(_n))
+    except ValueError:
+        pass
+
 def main():
     ap = argparse.ArgumentParser()
     ap.add_argument("dirs", nargs="+")
     ap.add_argument("--keep", action="store_true")
     ap.add_argument("-j", type=int, default=6)
     ap.add_argument("--only")
+    ap.add_argument("--renumber", action="store_true", help="number the changes after those already kept under seeded/")
     ap.add_argument("--checks-only", action="store_true", help="re-run only the checks on already confirmed mutations (directories under /verif/seeded)")
     args = ap.parse_args()
     mdirs = []
